@@ -20,7 +20,8 @@ Oracle (per helper invocation, top-level or nested; written from the property st
   raise     a raise-mode helper that exits with a body failure raises the failure with the smallest logical
             exit time (ties at the same logical instant are accepted in either order)
   cancel    cancel_on_error / OnlineBoundedGather2: when the helper exits with the failure, none of its tasks is
-            still pending and no body finishes normally afterwards
+            still pending, no body finishes normally afterwards, and no body that was never asked to cancel ran
+            on to a normal end at a later logical time than the first failure
   no-leak   after a normal return (every mode) none of the tasks created inside is pending
   restore   after everything settled the semaphore has exactly P free permits (counted with the public
             API: acquire while not locked()); right after a normal top-level return exactly P-1
@@ -37,7 +38,7 @@ LEVEL = 'exploration'
 RULE = (
     'seeded cases: permits P in 1..5, helper in {raise, raise+cancel_on_error, return_exceptions, bounded_gather2 dispatch, '
     'bounded_gather (own semaphore), OnlineBoundedGather2 (with / without pool.wait, bodies waiting on earlier siblings)}, 0..12 bodies with '
-    'virtual durations from a small set (ties on purpose), failure before/after the nested call, cancellation clean-up time, '
+    'virtual durations from a small set (ties on purpose), failure before/after the nested call, cancellation clean-up time (which may itself fail later), '
     'nested gathers sharing the semaphore (depth <= 2, nested failure caught or propagated), outer cancellation at a random '
     'logical instant, optional second gather on the same semaphore afterwards. '
     'Distinct = hash of (helper, P, completion order with outcomes, failure set, cancel delivered); non-trivial = at least 2 bodies ran.'
@@ -93,6 +94,8 @@ def gen_body(rng, p_fail, depth, allow_nested):
     if rng.random() < p_fail:
         fail = rng.choice(['pre', 'post'])
     b = {'pre': rng.choice(DUR), 'post': rng.choice(POST), 'fail': fail, 'cleanup': rng.choice(CLEANUP)}
+    if p_fail and rng.random() < 0.12:
+        b['cleanup_fail'] = True  # the clean-up after a cancellation fails (a *later* failure than the one that caused it)
     if allow_nested and depth < 2 and rng.random() < (0.3 if depth == 0 else 0.25):
         n = rng.choice([0, 1, 2, 2, 3, 3, 4])
         b['nested'] = {
@@ -270,6 +273,8 @@ class Run:
                 self.ev('cancel-seen', path)
                 if spec['cleanup']:
                     await asyncio.sleep(spec['cleanup'])
+                if spec.get('cleanup_fail'):
+                    raise Boom(path + ('cleanup',))
                 raise
         except BaseException as e:
             outcome = 'cancelled' if isinstance(e, asyncio.CancelledError) else 'fail'
@@ -513,8 +518,12 @@ def judge(run):
         n_exc_before = sum(1 for start, exc_exit in run.guarded if exc_exit and start <= bv['seq'])
         what = f"{bv['working']} bodies working at once with {P} permits (t={bv['t']}, at {bv['at']} {bv['path']})"
         if helper.startswith('bg'):
-            if bv['working'] == P + 1:
+            trouble_before = any(k in ('exit-fail', 'outer-cancel') and sq <= bv['seq'] for (sq, _, k, _, _) in run.events)
+            if bv['working'] == P + 1 and not trouble_before:
                 out.append((K_PLUS_ONE, 'bounded_gather(parallelism=P): ' + what))
+            elif bv['working'] == P + 1:
+                # only after the gather inside the wrapper had failed / been cancelled: the permit that is not taken back
+                out.append((K_NOT_REACQ, 'bounded_gather(parallelism=P): ' + what + ' after a failure inside the wrapper'))
             else:
                 out.append(('bound/exceeded', what))
         elif 0 < bv['working'] - P <= 2 * n_exc_before:
@@ -784,3 +793,36 @@ def run(ctx):
                 ctx.violation(key, what, witness={'case': case, 'events': r.events[:160] if r is not None else None, 'all': [w for _, w in verdicts][:8]})
     finally:
         asyncio.create_task = real_create_task
+
+
+# ------------------------------------------------------------------------------------------------------------
+# Validation record (2026-09-21/22).  Scratch worktree of /repo HEAD, quick tier, seed 0, one edit at a time.
+#
+# Unchanged tree: fires with exactly four mechanism keys (genuine defects, reported to the lead; fix diffs in
+# /verif/proposed_fixes/C20-*.diff; with all four diffs applied both tiers are silent for seeds 0..4):
+#   bound/bounded_gather-wrapper-runs-parallelism-plus-one         bounded_gather(parallelism=N) runs N+1 bodies
+#   sema/permit-not-reacquired-after-error                         WithoutSemaphore drops the permit when an exception passes
+#   cancel_on_error/raise-in-cancel-loop-skips-cancel-and-wait     `raise exc` inside the cancel loop
+#   online/exit-before-cancelled-tasks-complete                    _shutdown sets _done_event without waiting
+# Attribution to these keys is by observable precondition (an earlier helper call on the same semaphore ended
+# through an exception; the task left alone was submitted after the failed one; ...); everything else gets a
+# generic key, which is what the breaks below produce (in addition to the four keys above).
+#
+# Breaks from DESIGN.md
+#   A1  WithoutSemaphore.__aexit__ never re-acquires                      caught  bound/exceeded, sema/not-restored
+#   A2  skip task.cancel() in the finally block                           caught  cancel_on_error/running-task-not-cancelled
+# Own breaks (need a particular interleaving / failure pattern)
+#   A4  return_exceptions results collected in completion order           caught  order/wrong-slot, return_exceptions/wrong-exception
+#   A5  raise mode waits for all, raises first failure in submission order caught raise/not-first-failure (a later-submitted body must fail earlier)
+#   A6  OnlineBoundedGather2.wait keeps the caller's permit               caught  liveness/helper-never-returns (only when all permits are held by waiters)
+#   A7  _shutdown does not cancel                                         caught  online/running-task-not-cancelled, cancel/remaining-work-ran-to-completion
+#   A8  re-acquire skipped when the semaphore is contended at return time caught  bound/exceeded, sema/not-restored (nested call must return while siblings hold every permit)
+#   A10 __aexit__ forgets _shutdown() when the with-block raised          caught  cancel/remaining-work-ran-to-completion, online/call-after-shutdown-accepted
+#   A11 bounded_gather2 drops cancel_on_error when dispatching            caught  cancel_on_error/running-task-not-cancelled
+#   A12 Online: a later failure overwrites the first exception            caught  raise/not-first-failure (needs a cancelled body whose clean-up fails while
+#                                                                                 __aexit__ still waits; missed before bodies with failing clean-up were generated)
+#   A13 Online body keeps running after its permit was given back         caught  bound/exceeded, pending/unknown-task-after-return
+#   A14 clean-up wait returns on FIRST_COMPLETED                          caught  cancel_on_error/cancelled-tasks-not-awaited
+# False alarms met while writing the oracle (now counted as unspecified, not judged): a cancel_on_error helper whose
+# caller is cancelled twice / cancelled during the clean-up wait after a failure (the request interrupts the wait);
+# a body that catches the failure a nested helper raised in the same instant it was cancelled.
